@@ -51,14 +51,14 @@ PROPS = {
     "C01": rt(700, 12000, ["serve-with-params", "serve-user"],
         "random route tables (1-12 routes, shared prefixes, sibling parameter branches, '-' names, interceptors, regexps) after Handle/Remove/Clean histories; "
         "6-30 probes per table (instantiated patterns, mutated paths, raw bytes); non-trivial = a probe that captured parameters or reached a user handler",
-        props=["TreeMatch", "C01text", "C02order", "C01names"],
+        props=["TreeMatch", "C01text", "C02order", "C01names", "C10tokens"],
         level_text="Over EVERY history of Handle/Remove/Clean/Use and every request: C01_dispatch_text(_strong) - the reported node's pattern is the concatenation of the labels on the way down and the request path is the same chain with every label replaced by what it consumed (literal text byte for byte; a value its constraint accepts followed by the label's literal suffix) - from C01_pat_reachable (a child's pattern = parent's pattern ++ label, proved preserved through the CPS add_segment/split, remove, clean, use), C01_labels_reachable (every label is literal text or one {..} token + suffix), C01_idx_lit_reachable (the index jump never lands on a capturing child) and C01_match_children_sound_partial / C01_seg_match_sound. C01_404_exact_params / C01_404_no_new_params: a 404 reports no parameter it did not start with. *_refuted theorems show each side condition is necessary on arbitrary (unreachable) trees.",
-        level_note="C01_dispatch_text_wf_partial: the full statement with NO side condition for every history whose registered patterns pass the decidable check hist_wf (every '{'-piece of the pattern contains no second '{' - implied by the property's well-formed patterns), through C01_names_fresh_reachable_partial (the abandoned child's undo is exact because parameter names along a chain are distinct) and C01_idx_lit_reachable. C01_names_fresh_refuted / C01_dispatch_text_unconditional_refuted: with a '{' inside a token ('{a{b}c/') the library cuts the token in two and the statement is false - outside the property's quantifier. The token-level oracle (independent tokenizer, keys exactly the capturing ones) judges the implementation on every probe.",
+        level_note="C01_dispatch_text_wf_partial: the full statement with NO side condition for every history whose registered patterns pass the decidable check hist_wf (every '{'-piece of the pattern contains no second '{'); C01_tokens_imply_pat_wf / C01_dispatch_text_tokens: every pattern the independent tokenizer accepts (the property's well-formed patterns) passes it, so the theorem covers the property's whole quantifier, through C01_names_fresh_reachable_partial (the abandoned child's undo is exact because parameter names along a chain are distinct) and C01_idx_lit_reachable. C01_names_fresh_refuted / C01_dispatch_text_unconditional_refuted: with a '{' inside a token ('{a{b}c/') the library cuts the token in two and the statement is false - outside the property's quantifier. The token-level oracle (independent tokenizer, keys exactly the capturing ones) judges the implementation on every probe.",
         partial=[]),
     "C02": rt(700, 12000, ["serve-with-params", "serve-user"],
         "add-only tables of 1-14 routes in random registration orders incl. >=5 literal siblings; probes as C01, ASCII; the table-only resolver `resolve` (Spec/Resolve.v) is evaluated on every probe",
-        props=["TreeMatch", "C02order", "Consts"],
-        level_text="C02_shortest_capture: for every matcher function, suffix and path, a parameter takes the SHORTEST accepted value that is followed by its literal suffix (no widening) - all inputs. C02_order_reachable / C02_literal_children_first / C02_sort_node_sorted: in every reachable tree the children of every node are ordered literal < interceptor < regexp < named and every index entry points at a literal child, so depth-first search tries the kinds in the documented priority (proved preserved through registration incl. splits, removal, clean, use). The full refinement 'match on the tree built from a table = outcomes(table)' is stated as the executable resolver Spec/Resolve.v and decided on the implementation on every probe.",
+        props=["TreeMatch", "C02order", "C02dfs", "Consts"],
+        level_text="C02_shortest_capture: for every matcher function, suffix and path, a parameter takes the SHORTEST accepted value that is followed by its literal suffix (no widening) - all inputs. C02_order_reachable / C02_literal_children_first / C02_sort_node_sorted: in every reachable tree the children of every node are ordered literal < interceptor < regexp < named and every index entry points at a literal child, so depth-first search tries the kinds in the documented priority (proved preserved through registration incl. splits, removal, clean, use). C02_first_successful_child(_precise) / C02_404_iff_all_fail: the answer comes from the FIRST child in search order (indexed literal, then the non-indexed children in kind order) whose subtree matches, every earlier child having failed - falling back, never widening (C02_no_widening, C02_outcome_independent_of_params); C02_kind_priority_no_index, C02_literal_indexed_wins, C02_sort_node_idx_complete. The full refinement 'match on the tree built from a table = outcomes(table)' is stated as the executable resolver Spec/Resolve.v and decided on the implementation on every probe.",
         level_note="partial: kind-priority / first-byte-index / radix-split refinement to the table resolver (Repr invariant) is not proved; it is checked by evaluating the extracted resolver against implementation and model.",
         partial=["C02_priority (refinement tree -> outcomes) not proved"]),
     "C03": rt(350, 6000, ["remove", "clean"],
@@ -109,9 +109,9 @@ PROPS = {
         trust=["middleware factories are symbolic (HWrap terms); the harness's factories record their arguments"]),
     "C10": rt(500, 8000, ["url-ok", "url-err"],
         "well-formed and documented-malformed patterns x params maps (present/missing/extra keys, arbitrary bytes, prefix/suffix/infix matches) x strict/non-strict x live/non-live; through Router and facades",
-        props=["C10", "C03find"],
+        props=["C10", "C03find", "C10tokens"],
         level_text="C10_url_segs_closed_form (URL = segments with parameters substituted, fails iff one is missing), C10_roundtrip (building a matched route from its captured parameters reproduces the path), C10_strict_validates (every parameter kind validated over its whole length), C10_strict_not_a_route.",
-        level_note="stated on parsed segments; the agreement of the code's Split with the independent tokenizer is decided by the oracle (instantiate over tokens) on every case."),
+        level_note="C10_nonstrict_is_instantiate_partial: for every pattern the independent tokenizer accepts (up to the 32767-byte segment limit, C10_*_refuted shows the limit matters) non-strict URL building IS 'replace every {..} token by params[name], keep literal text, fail iff a parameter is missing'; C10_tokens_split_agree_partial / C10_tokens_split_names / C10_tokens_split_kinds: the model's Split and the tokenizer agree on segments, names and kinds; C10_empty_name_rejected, C10_adjacent_rejected, C10_dupname_rejected: the documented syntax errors are rejected."),
     "C11": rt(250, 4000, ["creq"],
         "CORS configurations (origins none/*/list/list+*, allow-headers none/*/list, exposed, max-age, credentials) x 40 random requests per case over method, path (live, unknown, *), Origin, ACRM, ACRH classes; thorough tier adds the exhaustive product (suite C11x)",
         suite="C11", props=["C11"],
